@@ -803,8 +803,11 @@ if true {}
 OBS a
 OBS a + 1
 """),
-    # ---- class declarations: once per module (the declaration registers the class under its name)
-    ("class-declared-in-function", "reject", """
+    # ---- class declarations below module level.  KNOWN FINDING `catalogue:class-declared-below-module-level`: the
+    #      compiler accepts them, but a class is registered once per module under its bare name -- a second execution of
+    #      the declaration stops with `Double export`, two classes of one name share code and type.  All entries of this
+    #      group report that one class (NESTED_CLASS); a tree that rejects such declarations reports nothing here.
+    ("class-declared-in-function", "accept", """
 f = fn(n: int) -> int {
 	class B {
 		v: int
@@ -818,7 +821,7 @@ f = fn(n: int) -> int {
 OBS f(1)
 OBS f(2)
 """),
-    ("class-declared-in-loop", "reject", """
+    ("class-declared-in-loop", "accept", """
 from 0 to 2, i {
 	class B {
 		v: int
@@ -830,7 +833,7 @@ from 0 to 2, i {
 	OBS b.v
 }
 """),
-    ("class-declared-in-while-with-methods", "reject", """
+    ("class-declared-in-while-with-methods", "accept", """
 k = 0
 while k < 2 {
 	class W {
@@ -843,7 +846,7 @@ while k < 2 {
 	k += 1
 }
 """),
-    ("class-in-function-named-like-a-module-class", "reject", """
+    ("class-in-function-named-like-a-module-class", "accept", """
 class A {
 	v: str
 	constructor(self, v: str) {
@@ -863,7 +866,7 @@ f = fn() {
 f()
 OBS (get h).v
 """),
-    ("two-functions-each-with-a-class-of-one-name", "reject", """
+    ("two-functions-each-with-a-class-of-one-name", "accept", """
 f = fn() -> int {
 	class Helper {
 		fn val(self) -> int {
@@ -1371,11 +1374,17 @@ def expand(src):
     return "\n".join(out) + "\n", n
 
 
+NESTED_CLASS = {"class-declared-in-function", "class-declared-in-loop", "class-declared-in-while-with-methods",
+                "class-in-function-named-like-a-module-class", "two-functions-each-with-a-class-of-one-name"}
+NESTED_CLASS_FINDING = "catalogue:class-declared-below-module-level"
+
+
 def entries():
     res = []
     for name, expect, src in CATALOGUE:
         text, n = expand(src)
         res.append({"name": name, "expect": expect, "src": text, "nobs": n,
+                    "cls": NESTED_CLASS_FINDING if name in NESTED_CLASS else "catalogue:" + name,
                     "meta": {"obs": {i: ("catalogue:" + name, None) for i in range(1, n + 1)},
                              "classes": sorted(set(l.split()[1] for l in src.split("\n") if l.startswith("class "))),
                              "aliases": {l.split()[1]: l.split()[2] for l in src.split("\n") if l.startswith("type ")}}})
